@@ -35,8 +35,8 @@ for p in props:
             "text": t.get("text", "held on the executions explored by the seeded workload; see DESIGN.md"),
             "design_ref": t.get("design_ref", f"DESIGN.md section 4, {pid}"),
         },
-        "level_note": t.get("note", "numpy/scipy/h5py/vtk/xarray/matplotlib are trusted; inputs limited to the generated domains (DESIGN.md rules R3/R7)"),
-        "technique": t.get("technique", "runtime monitoring: contracts + reference-model oracle on seeded hostile workloads"),
+        "level_note": t.get("note", "numpy/scipy/h5py/vtk/xarray/matplotlib are trusted; inputs limited to the generated domains (DESIGN.md rules R3/R7): 1-4-d meshes up to a few thousand cells, scales 1e-12..1e6, offsets up to 1e3 (partly 1e6) edge lengths, values 1e-12..1e9; a third of the fields and some meshes are reached through public histories (derived quantities read once, then values/validity/geometry changed in place or through setters: gen.via_history, DESIGN.md 11.3) so that stale caches and aliasing are observable; held = no unlisted violation on the executions counted in the evidence, not a proof"),
+        "technique": t.get("technique", "runtime monitoring: passive contracts / class invariants attached to the real classes (icontract + wrappers) and an independent reference-model oracle observing seeded hostile workloads and histories; offline classification of recorded violations against known_findings.json"),
     })
 hooks_commits = json.load(open(os.path.join(ROOT, "tools", "hook_commits.json"))) if os.path.exists(os.path.join(ROOT, "tools", "hook_commits.json")) else []
 manifest = {
